@@ -4,7 +4,7 @@ from __future__ import annotations
 
 import hashlib
 
-from vc import engine, sym, vcrt
+from vc import engine, extract, sym, vcrt
 from vc import terms as tm
 from vc import types as ty
 from vc.sym import S, cur, wrap_bytes
@@ -317,15 +317,18 @@ from vc import sqlfront  # noqa: E402
 
 
 class Cursor:
-    def __init__(self, db, ordinal, sql, args, rowspec, facts=None, always_row=False):
+    def __init__(self, db, ordinal, sql, args, rowspec, facts=None, always_row=False, on_none=None):
         self.db, self.ordinal, self.sql, self.args, self.rowspec, self.facts = db, ordinal, sql, args, rowspec, facts
         self.always_row = always_row
+        self.on_none = on_none  # on_none(cursor): facts assumed when the statement yields no (further) row
+        self.on_rows = None  # on_rows(cursor, rows): facts about the whole result of an iterated statement
 
     def _row(self, name):
         if self.rowspec is None:
             raise Unsupported(f"rows of query #{self.ordinal} are used but no row type is declared: {self.sql[:80]}")
         row = self.rowspec.fresh(name)
         if self.facts is not None:
+            cur().data["cursor"] = self
             cur().assume(self.facts(row, self.args))
         return row
 
@@ -338,6 +341,8 @@ class Cursor:
             c.pc.append(tm.Not(isn))  # an aggregate / EXISTS query always yields one row
             return self._row(n)
         if c.fork(isn):
+            if self.on_none is not None:
+                c.assume(self.on_none(self))
             return None
         return self._row(n)
 
@@ -363,16 +368,57 @@ class Cursor:
 
             def elem(i):
                 row = inner(i)
-                cur().assume(facts(row, args))
+                cur().data["cursor"] = self
+                cur().data["row_index"] = i
+                try:
+                    cur().assume(facts(row, args))
+                finally:
+                    cur().data.pop("row_index", None)
                 return row
 
             q.elem = elem
         q.cursor = self
+        if self.on_none is not None:
+            c.pc.append(tm.Implies(tm.Eq(q.length, tm.mk_int(0)), sym.B(self.on_none(self))))
+        if self.on_rows is not None:
+            self.on_rows(self, q)
         self.db.last_select_len = q.length  # ghost: number of rows of the most recent iterated SELECT
         return q
 
     def __iter__(self):
         raise Unsupported("native iteration over a query result (loop transform missing)")
+
+
+def temp_tables():
+    """Names of the TEMP tables of the schema (read from the working tree): scratch lists that are not part of
+    the stored graph, and on which no trigger is defined."""
+    import re as _re
+
+    out = set()
+    for rel, const in (("stepup/core/workflow.py", "WORKFLOW_SCHEMA"),):
+        try:
+            text = extract.module_constant(rel, const)
+        except extract.ExtractError:
+            continue
+        temps = set(_re.findall(r"CREATE\s+TEMP(?:ORARY)?\s+TABLE\s+(?:IF NOT EXISTS\s+)?([A-Za-z_]+)", text))
+        triggered = set(_re.findall(r"\bON\s+([A-Za-z_]+)\s", " ".join(
+            m for m in _re.findall(r"CREATE\s+(?:TEMP\s+)?TRIGGER.*?\bON\s+[A-Za-z_]+\s", text, flags=_re.S))))
+        out |= temps - triggered
+    return out
+
+
+_TEMP = None
+
+
+def writes_only_scratch(norm: str) -> bool:
+    """The statement's target is a TEMP scratch table (no trigger on it): the stored graph is unchanged."""
+    import re as _re
+
+    global _TEMP
+    if _TEMP is None:
+        _TEMP = temp_tables()
+    m = _re.match(r"(?i)^(DELETE FROM|INSERT (?:OR \w+ )?INTO|UPDATE)\s+(?:temp\.)?([A-Za-z_]+)", norm)
+    return bool(m) and m.group(2) in _TEMP
 
 
 class DbStub:
@@ -392,7 +438,7 @@ class DbStub:
         """Ghost: the value of a stored attribute in the current database version, e.g.
         fact('detached', i).  Facts about one version say nothing about the next."""
         c = cur()
-        ts = [sym.I(a) if not isinstance(a, (SymStr, str)) else S(a) for a in args]
+        ts = [a if isinstance(a, tm.T) else (sym.I(a) if not isinstance(a, (SymStr, str)) else S(a)) for a in args]
         suffix = f".v{self.version}" if versioned else ""
         f = c.decls.fun(f"db.{name}{suffix}", [t.sort for t in ts], sort or BOOL)
         return f(*ts)
@@ -406,7 +452,7 @@ class DbStub:
             raise Unsupported("SQL text is not a concrete string")
         k = self.count
         self.count += 1
-        rowspec = facts = None
+        rowspec = facts = on_none = on_rows = None
         always = False
         norm = sqlfront.normalize(sql)
         for q in self.queries:
@@ -414,18 +460,24 @@ class DbStub:
                 rowspec = q[1]
                 facts = q[2] if len(q) > 2 else None
                 always = norm.startswith(("SELECT EXISTS", "SELECT COUNT", "SELECT count")) or (len(q) > 3 and q[3])
+                on_none = q[4] if len(q) > 4 else None
+                on_rows = q[5] if len(q) > 5 else None
                 break
-        if not norm.upper().startswith(("SELECT", "WITH", "EXPLAIN", "PRAGMA")) or \
-                any(w in norm.upper().split() for w in ("UPDATE", "INSERT", "DELETE", "REPLACE")):
+        if (not norm.upper().startswith(("SELECT", "WITH", "EXPLAIN", "PRAGMA")) or
+                any(w in norm.upper().split() for w in ("UPDATE", "INSERT", "DELETE", "REPLACE"))) \
+                and not writes_only_scratch(norm):
             self.bump()
         c.event("sql", sql=sql, norm=norm, args=args, ordinal=k, db=self)
-        return Cursor(self, k, sql, args, rowspec, facts, always)
+        cu = Cursor(self, k, sql, args, rowspec, facts, always, on_none)
+        cu.on_rows = on_rows
+        return cu
 
     def executemany(self, sql, seq):
         c = cur()
         k = self.count
         self.count += 1
-        self.bump()
+        if not writes_only_scratch(sqlfront.normalize(sql)):
+            self.bump()
         c.event("sql.many", sql=sql, norm=sqlfront.normalize(sql), args=seq, ordinal=k, db=self)
         return Cursor(self, k, sql, seq, None)
 
@@ -443,6 +495,24 @@ class DbStub:
         c.pc.append(tm.Ge(n, tm.mk_int(0)))
         self.last_select_len = n
         self.bump()
+
+    def __snapshot__(self):
+        return DbAt(self, self.version)
+
+
+class DbAt:
+    """The database as it was at a given version (the `old` snapshot of a contract): ghost facts only."""
+
+    def __init__(self, db, version):
+        self.db, self.version, self.name = db, version, db.name
+
+    def fact(self, name, *args, sort=None, versioned=True):
+        cur_version = self.db.version
+        self.db.version = self.version
+        try:
+            return self.db.fact(name, *args, sort=sort, versioned=versioned)
+        finally:
+            self.db.version = cur_version
 
     def __snapshot__(self):
         return self
